@@ -47,7 +47,8 @@ def render_fun(fn):
     for i, it in enumerate(fn["items"]):
         k = it["k"]
         if k == "call":
-            e = "%s()" % it["f"]
+            cargs = [render_arg(a) for a in it.get("args", [])] + ["%s=%s" % (n, render_arg(a)) for (n, a) in it.get("kwargs", [])]
+            e = "%s(%s)" % (it["f"], ", ".join(cargs))
         elif k == "ref":
             e = "hof(%s)" % it["f"]
         elif k == "keep":
@@ -92,7 +93,7 @@ def ext_names(fn):
     if fn.get("fails"):
         names.add("boom")
     for it in fn["items"]:
-        if it["k"] == "keep":
+        if it["k"] in ("keep", "call"):
             for a in list(it.get("args", [])) + [a for (_, a) in it.get("kwargs", [])]:
                 if "c" not in a:
                     names.add("rt")
@@ -142,7 +143,7 @@ def model_world(world, extmod=None):
                 d["f"] = it["f"]
             if "path" in it:
                 d["path"] = it["path"]
-            if it["k"] == "keep":
+            if it["k"] == "keep" or (it["k"] == "call" and (it.get("args") or it.get("kwargs"))):
                 d["args"] = [({"t": "other"} if "c" not in a else a["c"]) for a in it.get("args", [])]
                 d["kwargs"] = [[n, ({"t": "other"} if "c" not in a else a["c"])] for (n, a) in it.get("kwargs", [])]
                 d["rt"] = [({"r": a.get("r", []), "p": a.get("p", []), "l": a.get("l", [])} if "c" not in a else None) for a in it.get("args", [])]
@@ -252,7 +253,10 @@ def _gen_world(rng, nfun, allow):
                 k = "keep"
             if k == "keep" and datafn[j]:
                 k = "call"
-            if k in ("call", "ref"):
+            if k == "call" and specs[j] and not datafn[j] and rng.random() < 0.5:
+                args, kwargs, _ = gen_call_args(rng, specs[j], len(items), params)
+                items.append({"k": "call", "f": "f%d" % j, "args": args, "kwargs": kwargs})
+            elif k in ("call", "ref"):
                 items.append({"k": k, "f": "f%d" % j})
             else:
                 args, kwargs, _ = gen_call_args(rng, specs[j], len(items), params)
@@ -273,7 +277,7 @@ def sites_ok(world):
     for f in world["funs"]:
         for it in f["items"]:
             if "f" in it:
-                sites.setdefault(it["f"], []).append(it["k"])
+                sites.setdefault(it["f"], []).append("keep" if (it["k"] == "call" and (it.get("args") or it.get("kwargs"))) else it["k"])
     for j, ks in sites.items():
         if "keep" in ks and len(ks) > 1:
             return False
@@ -440,13 +444,13 @@ def apply_edit(rng, world, kind):
                 pair[1] = new
         return w, {"kind": kind, "var": v}
     if kind == "const_arg":
-        sites = [(f, it, a) for f in w["funs"] for it in f["items"] if it["k"] == "keep"
+        sites = [(f, it, a) for f in w["funs"] for it in f["items"] if it["k"] in ("keep", "call")
                  for a in list(it.get("args", [])) + [x for (_, x) in it.get("kwargs", [])] if "c" in a]
         if not sites:
             return None
         f, it, a = rng.choice(sites)
         a["c"] = rng.choice([x for x in CONSTS if not same_hash_class(x, a["c"])])
-        return w, {"kind": kind, "fun": f["name"], "path": it["path"]}
+        return w, {"kind": kind, "fun": f["name"], "path": it.get("path", "(plain call of %s)" % it["f"])}
     if kind == "unrelated_fun":
         k = len(w.get("extra", []))
         w.setdefault("extra", []).append("def unrelated_%d():\n    return %d\n" % (k, rng.randint(0, 99)))
